@@ -324,6 +324,8 @@ fn core_word_bitnot(xs: &mut State) -> Xresult {
 fn core_word_random(xs: &mut State) -> Xresult {
     let mut buf = [0u8; 4];
     getrandom::getrandom(&mut buf).unwrap();
+    #[cfg(feature = "verif_hooks")]
+    crate::file::verif_env::entropy(&mut buf);
     let r = u32::from_le_bytes(buf) as Xreal / u32::MAX as Xreal;
     xs.push_data(Cell::Real(r))
 }
